@@ -121,6 +121,91 @@ static int s_quiescent(long *per_bin, int *nb) {
     return ok;
 }
 
+/* ------------------------------------------------------------------ recording parent allocator
+ * wraps hc_allocator() and remembers which blocks the parent has handed out and not got back, so that
+ * every pointer the small-block allocator returns can be classified exactly: inside a page it
+ * currently holds, a block of the parent, or neither (memory the allocator does not own — e.g. a
+ * chunk of a page it already returned to the OS). */
+#define MAXPARENT 16384
+static pthread_mutex_t s_par_lock = PTHREAD_MUTEX_INITIALIZER;
+static void *s_par[MAXPARENT];
+static size_t s_par_n;
+
+static void s_par_add(void *p) {
+    if (!p) {
+        return;
+    }
+    pthread_mutex_lock(&s_par_lock);
+    HC_CHECK(s_par_n < MAXPARENT);
+    s_par[s_par_n++] = p;
+    pthread_mutex_unlock(&s_par_lock);
+}
+
+static void s_par_del(void *p) {
+    pthread_mutex_lock(&s_par_lock);
+    for (size_t i = 0; i < s_par_n; ++i) {
+        if (s_par[i] == p) {
+            s_par[i] = s_par[--s_par_n];
+            break;
+        }
+    }
+    pthread_mutex_unlock(&s_par_lock);
+}
+
+static bool s_par_has(const void *p) {
+    bool r = false;
+    pthread_mutex_lock(&s_par_lock);
+    for (size_t i = 0; i < s_par_n; ++i) {
+        if (s_par[i] == p) {
+            r = true;
+            break;
+        }
+    }
+    pthread_mutex_unlock(&s_par_lock);
+    return r;
+}
+
+static void *s_par_acquire(struct aws_allocator *a, size_t size) {
+    (void)a;
+    void *p = hc_allocator()->mem_acquire(hc_allocator(), size);
+    s_par_add(p);
+    return p;
+}
+
+static void s_par_release(struct aws_allocator *a, void *p) {
+    (void)a;
+    if (p) {
+        s_par_del(p);
+        hc_allocator()->mem_release(hc_allocator(), p);
+    }
+}
+
+static void *s_par_realloc(struct aws_allocator *a, void *p, size_t oldsize, size_t newsize) {
+    (void)a;
+    void *n = hc_allocator()->mem_realloc(hc_allocator(), p, oldsize, newsize);
+    if (n) {
+        if (p) {
+            s_par_del(p);
+        }
+        s_par_add(n);
+    }
+    return n;
+}
+
+static void *s_par_calloc(struct aws_allocator *a, size_t num, size_t size) {
+    (void)a;
+    void *p = hc_allocator()->mem_calloc(hc_allocator(), num, size);
+    s_par_add(p);
+    return p;
+}
+
+static struct aws_allocator s_parent = {
+    .mem_acquire = s_par_acquire,
+    .mem_release = s_par_release,
+    .mem_realloc = s_par_realloc,
+    .mem_calloc = s_par_calloc,
+};
+
 /* ------------------------------------------------------------------ blocks */
 static uint8_t s_pat(size_t k, size_t i) {
     return (uint8_t)((k * 37 + i * 11 + 5) % 251 + 1);
@@ -174,15 +259,20 @@ static void s_identify(struct blk *b, size_t alloc_size, bool same_ptr) {
             b->cls = cls;
         }
     } else {
-        printf("W %s big\n", b->name);
+        /* not in a page the allocator holds: it must be a block of the parent */
+        printf("W %s %s\n", b->name, s_par_has(b->ptr) ? "big" : "stray");
         b->cls = 0;
     }
 }
 
-static void s_checks(const struct blk *bl, size_t n, int *disjoint, int *align, int *intact) {
-    *disjoint = *align = *intact = 1;
+static void s_checks(const struct blk *bl, size_t n, int *disjoint, int *align, int *intact, int *owned) {
+    *disjoint = *align = *intact = *owned = 1;
     for (size_t i = 0; i < n; ++i) {
         const struct blk *a = &bl[i];
+        /* the block lies in a page the allocator currently holds, or is a live block of the parent */
+        if (s_page_of(a->ptr, 0, NULL, NULL) < 0 && !s_par_has(a->ptr)) {
+            *owned = 0;
+        }
         if (((uintptr_t)a->ptr) % 16) {
             *align = 0;
         }
@@ -207,9 +297,9 @@ static void s_checks(const struct blk *bl, size_t n, int *disjoint, int *align, 
 }
 
 static void s_status(void) {
-    int d, a, in;
-    s_checks(s_blk, s_nblk, &d, &a, &in);
-    printf("P ok disjoint=%d align=%d intact=%d active=%zu\n", d, a, in, aws_small_block_allocator_bytes_active(s_sba));
+    int d, a, in, ow;
+    s_checks(s_blk, s_nblk, &d, &a, &in, &ow);
+    printf("P ok disjoint=%d align=%d intact=%d owned=%d active=%zu\n", d, a, in, ow, aws_small_block_allocator_bytes_active(s_sba));
     printf("W reserved=%zu\n", aws_small_block_allocator_bytes_reserved(s_sba));
     if (s_nblk == 0) {
         long pb[NBINS];
@@ -365,8 +455,8 @@ static void s_stress(int nthreads, long ops, uint64_t seed) {
             expect_active += ctx[t].blk[i].cls;
         }
     }
-    int d, a, in;
-    s_checks(all, n, &d, &a, &in);
+    int d, a, in, ow;
+    s_checks(all, n, &d, &a, &in, &ow);
     size_t active = aws_small_block_allocator_bytes_active(s_sba);
     long pages_peak = s_pg_total;
     for (size_t i = 0; i < n; ++i) {
@@ -376,10 +466,10 @@ static void s_stress(int nthreads, long ops, uint64_t seed) {
     long pb[NBINS];
     int nb;
     int q = s_quiescent(pb, &nb);
-    int ok = d && a && in && fp == 0 && fk == 0 && fz == 0 && active == expect_active && active_end == 0 && q;
-    printf("P stress threads=%d ok=%d disjoint=%d align=%d intact=%d pattern_failures=%ld kept_failures=%ld zero_failures=%ld "
+    int ok = d && a && in && ow && fp == 0 && fk == 0 && fz == 0 && active == expect_active && active_end == 0 && q;
+    printf("P stress threads=%d ok=%d disjoint=%d align=%d intact=%d owned=%d pattern_failures=%ld kept_failures=%ld zero_failures=%ld "
            "active=%zu expected_active=%zu active_after_release=%zu quiescent=%d\n",
-           nthreads, ok, d, a, in, fp, fk, fz, active, expect_active, active_end, q);
+           nthreads, ok, d, a, in, ow, fp, fk, fz, active, expect_active, active_end, q);
     printf("H stress allocs=%ld frees=%ld reallocs=%ld live_at_join=%zu pages_obtained=%ld pages_held_after=%zu\n", na, nf, nr, n,
            pages_peak, s_pg_n);
 }
@@ -399,7 +489,7 @@ int main(void) {
             s_pg_next = 0;
             s_pg_total = 0;
             pthread_mutex_unlock(&s_pg_lock);
-            s_sba = aws_small_block_allocator_new(hc_allocator(), !strcmp(t[1], "mt=1"));
+            s_sba = aws_small_block_allocator_new(&s_parent, !strcmp(t[1], "mt=1"));
             HC_CHECK(s_sba);
             s_page_size = aws_small_block_allocator_page_size(s_sba);
             s_hdr = s_page_size - aws_small_block_allocator_page_size_available(s_sba);
